@@ -54,13 +54,25 @@ private:
             // naked types, they have no direct members
             return {};
         }
+        // the lists include members inherited from
+        // `required_base`/`optional_base`, class named like one of them would
+        // hide it by its injected-class-name
         else if(t.presence == field_presence::required)
         {
-            return {"min_value", "max_value"};
+            return {
+                "min_value", "max_value", "value", "value_type", "in_range"};
         }
         else
         {
-            return {"min_value", "max_value", "null_value"};
+            return {
+                "min_value",
+                "max_value",
+                "null_value",
+                "value",
+                "value_type",
+                "in_range",
+                "has_value",
+                "value_or"};
         }
     }
 
